@@ -13,7 +13,11 @@
 
    Definitions only; the proofs are in Proofs/Election.v. *)
 From KB Require Export Base.Cases.
+From Coq Require Import Ascii String.
 Local Open Scope N_scope.
+
+(* byte strings written as string literals (case files: JSON lock records are printable ASCII) *)
+Definition bs (s : string) : bytes := List.map N_of_ascii (list_ascii_of_string s).
 
 Definition cid := N.
 
